@@ -257,6 +257,93 @@ func RunC16(r *core.Run) {
 	})
 	st.Exhaustive = true
 	st.Space = "every table name / method followed or preceded by 1..12 copies of every byte value 0..255"
+	// C3: long same-byte / random suffixes of "round" lengths (a lookup that drops the length check
+	// or hashes len modulo a power of two only shows for suffixes of 16, 32, 64 ... bytes)
+	longLens := []int{13, 15, 16, 17, 28, 31, 32, 33, 36, 60, 63, 64, 65, 96, 128, 252, 255, 256, 257}
+	st = r.Stage("long-suffixes", int64(len(names)*len(longLens)*8), func(w *core.Worker, idx int64) {
+		rr := core.NewRand(r.Seed, 0xC16, 7, uint64(idx))
+		variant := int(idx % 8)
+		x := idx / 8
+		k := longLens[x%int64(len(longLens))]
+		base := append([]byte(nil), names[x/int64(len(longLens))]...)
+		if variant&1 == 1 {
+			base = bytes.ToUpper(base)
+		}
+		var suf []byte
+		switch variant / 2 {
+		case 0:
+			suf = bytes.Repeat([]byte{"-x\x00 "[rr.Intn(4)]}, k)
+		case 1:
+			suf = rr.Bytes(k, []byte("abcdefghijklmnopqrstuvwxyz-"))
+		case 2:
+			suf = append([]byte("-"), rr.Bytes(k-1, []byte("ABCXYZabcxyz0189-_."))...)
+		default:
+			suf = rr.RawBytes(k)
+		}
+		classify(w, append(base, suf...), variant != 6)
+		w.NontrivialEnum()
+	})
+	st.Space = "every table name / method (lower and upper case) + a suffix of 13..257 bytes (same byte, random letters, random bytes)"
+	// C4: Unicode case-fold lookalikes: 's' -> U+017F, 'k' -> U+212A in every subset of positions
+	type look struct{ name []byte }
+	var looks []look
+	for _, n := range names {
+		var pos []int
+		for i, c := range n {
+			if c|0x20 == 's' || c|0x20 == 'k' {
+				pos = append(pos, i)
+			}
+		}
+		for mask := 1; mask < 1<<uint(len(pos)) && mask < 64; mask++ {
+			var o []byte
+			pi := 0
+			for i, c := range n {
+				if pi < len(pos) && pos[pi] == i {
+					if mask>>uint(pi)&1 == 1 {
+						if c|0x20 == 's' {
+							o = append(o, 0xc5, 0xbf)
+						} else {
+							o = append(o, 0xe2, 0x84, 0xaa)
+						}
+						pi++
+						continue
+					}
+					pi++
+				}
+				o = append(o, c)
+			}
+			looks = append(looks, look{o})
+		}
+	}
+	st = r.Stage("unicode-fold-lookalikes", int64(len(looks)), func(w *core.Worker, idx int64) {
+		classify(w, looks[idx].name, true)
+		w.NontrivialEnum()
+	})
+	st.Exhaustive = true
+	st.Space = "table names with 's'/'k' replaced by U+017F / U+212A (they fold to s / k under Unicode simple folding) in every subset of positions"
+	// C5: real-world SIP header names that are NOT in the table
+	st = r.Stage("other-registered-header-names", int64(len(otherSIPHeaders))*4, func(w *core.Worker, idx int64) {
+		n := []byte(otherSIPHeaders[idx/4])
+		switch idx % 4 {
+		case 1:
+			n = bytes.ToLower(n)
+		case 2:
+			n = bytes.ToUpper(n)
+		case 3:
+			for i := range n {
+				if i%2 == 0 {
+					n[i] |= 0x20
+				}
+			}
+		}
+		if ref.HdrType(n) != ref.HdrOther {
+			return
+		}
+		classify(w, n, true)
+		w.NontrivialEnum()
+	})
+	st.Exhaustive = true
+	st.Space = fmt.Sprintf("%d header names registered for SIP that are not in the table (and their compact forms), in 4 letter cases", len(otherSIPHeaders))
 	// D: 8-bit samples of length 3 and random long names
 	r.Stage("random-names", r.Pick(2000000, 60000000), func(w *core.Worker, idx int64) {
 		rr := core.NewRand(r.Seed, 0xC16, 4, uint64(idx))
@@ -539,3 +626,19 @@ func RunC20(r *core.Run) {
 	})
 	r.Require("C20 texts with an address", r.Counter("addresses_found"), 10000)
 }
+
+// otherSIPHeaders: header field names from the IANA SIP registry (and common extensions)
+// that the library does not list: all must classify as "other".
+var otherSIPHeaders = []string{"Accept", "Accept-Contact", "a", "Accept-Encoding", "Accept-Language", "Accept-Resource-Priority", "Alert-Info", "Allow", "Allow-Events", "u",
+	"Answer-Mode", "Authentication-Info", "Authorization", "Call-Info", "Cellular-Network-Info", "Content-Disposition", "Content-Encoding", "e", "Content-Language",
+	"Content-Type", "c", "Date", "Error-Info", "Event", "o", "Feature-Caps", "Flow-Timer", "Geolocation", "Geolocation-Error", "Geolocation-Routing", "Hide", "History-Info",
+	"Identity", "y", "Identity-Info", "n", "Info-Package", "In-Reply-To", "Join", "Max-Breadth", "MIME-Version", "Min-Expires", "Min-SE", "Organization",
+	"P-Access-Network-Info", "P-Answer-State", "P-Asserted-Service", "P-Associated-URI", "P-Called-Party-ID", "P-Charging-Function-Addresses", "P-Charging-Vector",
+	"P-DCS-Trace-Party-ID", "P-Early-Media", "P-Media-Authorization", "P-Preferred-Identity", "P-Preferred-Service", "P-Private-Network-Indication", "P-Profile-Key",
+	"P-Refused-URI-List", "P-Served-User", "P-User-Database", "P-Visited-Network-ID", "Path", "Permission-Missing", "Policy-Contact", "Policy-ID", "Priority",
+	"Priv-Answer-Mode", "Privacy", "Proxy-Authenticate", "Proxy-Authorization", "Proxy-Require", "RAck", "Reason", "Reason-Phrase", "Recv-Info", "Refer-Events-At",
+	"Refer-Sub", "Refer-To", "r", "Referred-By", "b", "Reject-Contact", "j", "Relayed-Charge", "Replaces", "Reply-To", "Request-Disposition", "d", "Require",
+	"Resource-Priority", "Resource-Share", "Response-Key", "Restoration-Info", "Retry-After", "RSeq", "Security-Client", "Security-Server", "Security-Verify", "Server",
+	"Service-Interact-Info", "Service-Route", "Session-Expires", "x", "Session-ID", "SIP-ETag", "SIP-If-Match", "Subject", "s", "Subscription-State", "Supported", "k",
+	"Suppress-If-Match", "Target-Dialog", "Timestamp", "Trigger-Consent", "Unsupported", "User-to-User", "Warning", "WWW-Authenticate", "Diversion", "Remote-Party-ID",
+	"X-Forwarded-For", "Contact-Info", "From-Tag", "To-Tag", "Via-Branch", "Route-Set", "Expires-In", "CSeq-Number", "Call-ID-Ref", "Content-Length-Hint", "P-Asserted-Identity-Info"}
